@@ -38,11 +38,12 @@ Inductive signed_verdict :=
 | SPair (v : pair_verdict)
 | STsigMismatch.      (* TC-clear UDP response: its TSIG record is missing / extra / differs in owner, class or TTL *)
 
-(* the relation between the two decoded responses for a given UDP limit *)
-Definition pair_rel_signed (limit : nat) (u t : bytes) (mu mt : dmsg) : signed_verdict :=
+(* the relation between the two decoded responses for a given UDP limit; [fit] is the length up to which the complete
+   response counts as fitting: the limit itself in the oracle [pair_check_signed] *)
+Definition pair_rel_signed (limit fit : nat) (u t : bytes) (mu mt : dmsg) : signed_verdict :=
   if (limit <? length u) || (N.to_nat 65535 <? length t) then SPair PTooLong
   else if tc_bit mt then SPair PTcOnTcp
-  else if length t <=? limit then
+  else if length t <=? fit then
     (* the complete (signed) response fits: the UDP response is that response *)
     if label_eqb u t then SPair PairOk else SPair PNotIdentical
   else if tc_bit mu then
@@ -66,15 +67,15 @@ Definition pair_rel_signed (limit : nat) (u t : bytes) (mu mt : dmsg) : signed_v
 
 Definition pair_check_signed (their server : N) (u t : bytes) : signed_verdict :=
   match decode_msg u, decode_msg t with
-  | Some mu, Some mt => pair_rel_signed (udp_limit_of mu their server) u t mu mt
+  | Some mu, Some mt => pair_rel_signed (udp_limit_of mu their server) (udp_limit_of mu their server) u t mu mt
   | _, _ => SPair PUndecodable
   end.
 
-(* the same relation under an explicitly given limit: used ONLY to delimit the input class of known finding
+(* the same relation with an explicitly given fit threshold: used ONLY to delimit the input class of known finding
    C04-2 ("would this UDP response be right if the complete response did not fit?"), never as the verdict *)
-Definition pair_check_signed_at (limit : nat) (u t : bytes) : signed_verdict :=
+Definition pair_check_signed_at (their server : N) (fit : nat) (u t : bytes) : signed_verdict :=
   match decode_msg u, decode_msg t with
-  | Some mu, Some mt => pair_rel_signed limit u t mu mt
+  | Some mu, Some mt => pair_rel_signed (udp_limit_of mu their server) fit u t mu mt
   | _, _ => SPair PUndecodable
   end.
 
